@@ -99,13 +99,17 @@ func (e *Eval) compile(node ast.Node) error {
 	case *ast.HashLiteral:
 		keys := []ast.Expression{}
 
-		// get the keys
-		for k := range node.Pairs {
-			keys = append(keys, k)
+		// get the keys, in the order they were written
+		keys = append(keys, node.Keys...)
+		if len(keys) != len(node.Pairs) {
+			keys = keys[:0]
+			for k := range node.Pairs {
+				keys = append(keys, k)
+			}
 		}
 
 		// sort them
-		sort.Slice(keys, func(i, j int) bool {
+		sort.SliceStable(keys, func(i, j int) bool {
 			return keys[i].String() < keys[j].String()
 		})
 
